@@ -226,3 +226,60 @@ def settings_rule(chk, rule='C17.R7'):
                 chk.require(_same(gv, wv), rule, w, q, f'setting field {fld} ({"with" if b["dda"] is not None else "without"} double-dummy table, written {after})',
                             f'[list {oi + 1}] board {k + 1}: {fld} read back equal', f'board {k + 1} (written {after}): `{fld}` is read back as {_show(gv, f)}, written was {_show(wv, f)}')
     chk.floor(rule, 'lists of board settings written and read back', n, 4)
+
+
+def envelope_rule(chk, rule='C13.R2'):
+    """The streaming envelope of the JSON writers, decided by folding the real open / _write_content / close / __enter__ / __exit__ on an
+    analyser stream - independent of how the writer keeps its state: for 0..3 records, leaving the `with` normally or with an exception
+    in flight, and with a record that cannot be serialised (json.dumps raises) at every position, the stream must hold ONE JSON document
+    with exactly the records that were written completely, and __exit__ must not swallow the exception."""
+    repo = chk.repo
+    f = _folder(repo)
+    n = 0
+    for cls, tag in (('JsonLogWriter', 'logs'), ('JsonBoardSettingWriter', 'board_settings')):
+        ci, fn = repo.method(cls, '__exit__', rule)
+        w, q = repo.where(ci.module, fn), f'{ci.name}.__exit__'
+        for k in range(0, 4):
+            for bad_at in [None] + list(range(k)):
+                for leave in ('normally', 'with an exception in flight'):
+                    n += 1
+                    chk.evals()
+                    out = OutStream()
+                    f.steps = 0
+                    written = []
+                    failed = None
+                    try:
+                        wr = f._construct(repo.cls(cls), [], {'writer': out})
+                        f.call_method(wr, '__enter__')
+                        for i in range(k):
+                            rec = {'record': i} if i != bad_at else {'record': {1, 2}}       # a set is not JSON-serialisable: json.dumps raises TypeError
+                            try:
+                                f.call_method(wr, '_write_content', rec)
+                                written.append(i)
+                            except FoldRaise as r:
+                                if i != bad_at:
+                                    raise
+                                failed = r
+                                break
+                        exc = failed if failed is not None else (FoldRaise('ValueError', 'card not held') if leave != 'normally' else None)
+                        ret = f.call_method(wr, '__exit__', *( [None, None, None] if exc is None else [('builtin', exc.kind), exc, None]))
+                    except FoldRaise as r:
+                        chk.fail(rule, w, q, f'{cls}: the envelope raises ({r.kind})',
+                                 f'{cls}: open, {k} record(s){f", record {bad_at + 1} not serialisable" if bad_at is not None else ""}, leaving {leave}: {r.kind}: {str(r)[:80]}')
+                        continue
+                    except Unsupported as e:
+                        raise AnalysisError(rule, q, f'writer envelope left the foldable subset: {e}')
+                    text = ''.join(out.chunks)
+                    sit = f'{cls}: open, {k} record(s)' + (f', record {bad_at + 1} cannot be serialised' if bad_at is not None else '') + f', the with-block is left {leave if failed is None else "with that exception in flight"}'
+                    try:
+                        doc = json.loads(text)
+                        ok = isinstance(doc, dict) and list(doc) == [tag] and doc[tag] == [{'record': i} for i in written]
+                    except ValueError:
+                        ok = False
+                    chk.require(ok, rule, w, q, f'{cls}: stream after {"a record that cannot be serialised" if bad_at is not None else "leaving " + leave}',
+                                f'{sit}: the stream is one JSON document with the {len(written)} complete record(s)',
+                                f'{sit}: the stream reads {text[:50]!r}...{text[-24:]!r} - not one JSON document {{"{tag}": [{len(written)} record(s)]}}')
+                    if exc is not None:
+                        chk.require(not f._truth(ret), rule, w, q, f'{cls}.__exit__ swallows the exception', f'{sit}: __exit__ lets the exception through',
+                                    f'{sit}: __exit__ returns {ret!r} (true): the abort is hidden from the caller')
+    chk.floor(rule, 'writer envelopes folded', n, 30)
